@@ -626,6 +626,12 @@ func posScenarios(id, tier string) []Scenario {
 		}
 		k2, d2 := kd(2, 4, 3, 5)
 		scs = append(scs, Scenario{Name: "3val-jail-fast", Cfg: cfgJailFast(), Alphabet: jailFastAlphabet(), K: k2, D: d2, Tail: 1})
+		// the same with two seats for three validators: unjailing below / at the cut-off
+		jf2 := cfgJailFast()
+		pj := *jf2.Pos
+		pj.MaxValidators = 2
+		jf2.Pos = &pj
+		scs = append(scs, Scenario{Name: "3val-jail-fast-2-seats", Cfg: jf2, Alphabet: jailFastAlphabet(), K: k2, D: d2, Tail: 1})
 		scs = fromStates(scs, bigStake(), jailAlphabet(), k2, d2, "k0-jailed", "k0-tombstoned", "k0-unstaking-jailed", "k2-joined-k0-jailed", "k0-tombstoned-new-record-jailed-for-downtime")
 		return scs
 	case "C10":
